@@ -70,8 +70,9 @@ def _mkgen():
     import gzip
 
     add("meta/c.txt.gz", gzip.compress(b"compressed text\n", mtime=0))
-    add("gm/gophermap", b"info\n0doc\t../meta/doc.txt\n0here\tt.txt\n")
+    add("gm/gophermap", b"info\n0deeper\tsub/u.txt\n0here\tt.txt\n1sub\tsub\n")
     add("gm/t.txt", b"t\n")
+    add("gm/sub/u.txt", b"u\n")
     add("odd/what?.txt", b"question mark\n")
     add("odd/a|b.txt", b"pipe\n")
     add("odd/q?dir/inner.txt", b"inner\n")
